@@ -20,10 +20,25 @@ def Part.wf (sh : Shape) (dim : Nat) (p : Part) : Prop :=
   (p.hasTopo = true → ∀ i, i < dim →
      (p.topo.getD i []).length = p.sizes.getD (i + 1) 0 ∧
      ∀ t ∈ p.topo.getD i [], t.length = nverts sh (i + 1) ∧ ∀ x ∈ t, x < p.sizes.getD 0 0) ∧
+  (∀ na ∈ p.attrs, 0 < na.2.dim ∧ na.2.dim ≤ 2 ^ 31 - 1 ∧ na.2.vals.length = p.sizes.getD 0 0 ∧
+    ∀ v ∈ na.2.vals, v.length = na.2.dim)
+
+/-- a mesh part without topology has empty index sets -/
+def Part.noTopoEmpty (p : Part) : Prop := p.hasTopo = false → ∀ ts ∈ p.topo, ts = []
+
+/-- `Part.wf` plus `Part.noTopoEmpty`, with the topology clause guarded by `c` (a `topology="parent"` part has no checked topology before
+    the linker has deducted it) -/
+def Part.wfIf (c : Prop) (sh : Shape) (dim : Nat) (p : Part) : Prop :=
+  p.sizes.length = dim + 1 ∧ p.maps.length = dim + 1 ∧
+  (∀ d, d ≤ dim → (p.maps.getD d []).length = p.sizes.getD d 0) ∧
+  (∀ idx ∈ p.maps, ∀ i ∈ idx, i < 2 ^ 64) ∧
+  p.topo.length = dim ∧
+  (c → p.hasTopo = true → ∀ i, i < dim →
+     (p.topo.getD i []).length = p.sizes.getD (i + 1) 0 ∧
+     ∀ t ∈ p.topo.getD i [], t.length = nverts sh (i + 1) ∧ ∀ x ∈ t, x < p.sizes.getD 0 0) ∧
   (p.hasTopo = false → ∀ ts ∈ p.topo, ts = []) ∧
   (∀ na ∈ p.attrs, 0 < na.2.dim ∧ na.2.dim ≤ 2 ^ 31 - 1 ∧ na.2.vals.length = p.sizes.getD 0 0 ∧
-    ∀ v ∈ na.2.vals, v.length = na.2.dim) ∧
-  (p.hasTopo = true → zeroBelow p.sizes = false)
+    ∀ v ∈ na.2.vals, v.length = na.2.dim)
 
 def Partition.wf (p : Partition) : Prop :=
   p.patches.length = p.nr ∧ (∀ el ∈ p.patches, el.Pairwise (· < ·) ∧ ∀ e ∈ el, e < p.ne) ∧
@@ -32,7 +47,7 @@ def Partition.wf (p : Partition) : Prop :=
 /-- further facts about a parsed mesh part (number ranges, names, order of the attribute map); `N` is any
     property of attribute values that the scanner guarantees -/
 def Part.wfX (N : Str → Prop) (name : Str) (p : Part) : Prop :=
-  p.chart = [] ∧ (∀ s ∈ p.sizes, s < 2 ^ 64) ∧ N name ∧
+  (∀ s ∈ p.sizes, s < 2 ^ 64) ∧ N name ∧
   (∀ na ∈ p.attrs, N na.1 ∧ na.2.dim < 2 ^ 64) ∧
   p.attrs.Pairwise (fun a b => strLt a.1 b.1 = true)
 
@@ -40,6 +55,39 @@ def Part.wfX (N : Str → Prop) (name : Str) (p : Part) : Prop :=
 def Partition.wfX (N : Str → Prop) (p : Partition) : Prop :=
   N p.name ∧ (-(2 ^ 31 : Int) ≤ p.prio ∧ p.prio < 2 ^ 31) ∧ (0 ≤ p.level ∧ p.level < 2 ^ 31) ∧
   p.nr < 2 ^ 31 ∧ p.ne < 2 ^ 31
+
+theorem Part.wfIf.mono {c c' : Prop} {sh : Shape} {dim : Nat} {p : Part} (h : Part.wfIf c sh dim p)
+    (hc : c' → c) : Part.wfIf c' sh dim p := by
+  obtain ⟨a1, a2, a3, a4, a5, a6, a7, a8⟩ := h
+  exact ⟨a1, a2, a3, a4, a5, fun hc' => a6 (hc hc'), a7, a8⟩
+
+theorem zipIdx_any_ge_false_iff (l : List (List Nat)) (f : Nat → Nat) :
+    l.zipIdx.any (fun (idx, d) => idx.any (fun i => i ≥ f d)) = false ↔
+      ∀ d, ∀ i ∈ l.getD d [], i < f d := by
+  constructor
+  · intro h d i hi
+    rw [List.getD_eq_getElem?_getD] at hi
+    cases hd : l[d]? with
+    | none => rw [hd] at hi; simp at hi
+    | some idx =>
+      rw [hd] at hi
+      simp only [Option.getD_some] at hi
+      have hm : (idx, d) ∈ l.zipIdx := List.mem_zipIdx_iff_getElem?.2 hd
+      rw [List.any_eq_false] at h
+      have := h (idx, d) hm
+      simp only [List.any_eq_true, not_exists, not_and] at this
+      have := this i hi
+      simpa using this
+  · intro h
+    rw [List.any_eq_false]
+    intro x hx
+    obtain ⟨idx, d⟩ := x
+    have hd : l[d]? = some idx := List.mem_zipIdx_iff_getElem?.1 hx
+    simp only [List.any_eq_true, not_exists, not_and]
+    intro i hi
+    have := h d i (by rw [List.getD_eq_getElem?_getD, hd]; exact hi)
+    simp only [ge_iff_le, decide_eq_true_eq]
+    omega
 
 namespace S2
 
@@ -200,11 +248,11 @@ theorem mapMOpt_readIndex_lt {l : List Str} {ns : List Nat} (h : mapMOpt readInd
 /-! ### the invariant -/
 
 /-- what is known about an open `<MeshPart>` frame -/
-structure PartOk2 (N : Str → Prop) (sh : Shape) (dim : Nat) (p : PartSt) : Prop where
+structure PartOk2 (N : Str → Prop) (sh : Shape) (dim : Nat) (ded : List Str) (p : PartSt) : Prop where
   sizesLen : p.sizes.length = dim + 1
   mapsLen : p.maps.length = dim + 1
   topoLen : p.topo.length = dim
-  notParent : p.topoType ≠ .parent
+  parentIn : p.topoType = .parent → p.name ∈ ded
   maps : ∀ d l, p.maps[d]? = some (some l) → l.length = p.sizes.getD d 0 ∧ ∀ i ∈ l, i < 2 ^ 64
   topo : ∀ i ts, p.topo[i]? = some (some ts) →
     tuplesOk (nverts sh (i + 1)) (p.sizes.getD 0 0) (p.sizes.getD (i + 1) 0) ts = true
@@ -245,8 +293,8 @@ def childOkPt (nr ne : Nat) : Frame → Prop
   | Frame.patch rank _ ne' _ elems => rank < nr ∧ ne' = ne ∧ ∀ e ∈ elems, e < ne
   | _ => True
 
-def frameOk2 (N : Str → Prop) (sh : Shape) (dim : Nat) : Frame → Prop
-  | Frame.part p => PartOk2 N sh dim p
+def frameOk2 (N : Str → Prop) (sh : Shape) (dim : Nat) (ded : List Str) : Frame → Prop
+  | Frame.part p => PartOk2 N sh dim ded p
   | Frame.partition name prio level nr ne patches hv => PtOk2 N name prio level nr ne patches hv
   | Frame.mesh sizes _ _ => (∀ s ∈ sizes, s < 2 ^ 64) ∧ zeroBelow sizes = false
   | _ => True
@@ -256,36 +304,38 @@ def aboveOk2 (N : Str → Prop) (sh : Shape) (dim : Nat) (f : Frame) : List Fram
   | Frame.partition _ _ _ nr ne _ _ :: _ => childOkPt nr ne f
   | _ => True
 
-def stackInv2 (N : Str → Prop) (sh : Shape) (dim : Nat) : List Frame → Prop
+def stackInv2 (N : Str → Prop) (sh : Shape) (dim : Nat) (ded : List Str) : List Frame → Prop
   | [] => True
-  | f :: rest => frameOk2 N sh dim f ∧ aboveOk2 N sh dim f rest ∧ stackInv2 N sh dim rest
+  | f :: rest => frameOk2 N sh dim ded f ∧ aboveOk2 N sh dim f rest ∧ stackInv2 N sh dim ded rest
 
 /-- what is known about the node collected so far -/
-structure NodeOk2 (N : Str → Prop) (sh : Shape) (dim : Nat) (n : Node) : Prop where
+structure NodeOk2 (N : Str → Prop) (sh : Shape) (dim : Nat) (ded : List Str) (n : Node) : Prop where
   mesh64 : ∀ m, n.mesh = some m → ∀ s ∈ m.sizes, s < 2 ^ 64
   meshZB : ∀ m, n.mesh = some m → zeroBelow m.sizes = false
-  parts : ∀ np ∈ n.parts, Part.wf sh dim np.2 ∧ Part.wfX N np.1 np.2
+  parts : ∀ np ∈ n.parts, Part.wfIf (np.1 ∉ ded) sh dim np.2 ∧ Part.wfX N np.1 np.2
+  partsChart : ∀ np ∈ n.parts, np.2.chart = []
+  partsZB : ∀ np ∈ n.parts, np.1 ∉ ded → np.2.hasTopo = true → zeroBelow np.2.sizes = false
   partsSorted : n.parts.Pairwise (fun a b => strLt a.1 b.1 = true)
   partitions : ∀ p ∈ n.partitions, p.wf ∧ p.wfX N
 
-def Good2 (N : Str → Prop) (sh : Shape) (dim : Nat) (stack : List Frame) (node : Node) : Prop :=
-  stackInv2 N sh dim stack ∧ NodeOk2 N sh dim node
+def Good2 (N : Str → Prop) (sh : Shape) (dim : Nat) (ded : List Str) (stack : List Frame) (node : Node) : Prop :=
+  stackInv2 N sh dim ded stack ∧ NodeOk2 N sh dim ded node
 
 /-- the second parser-state invariant.  A `topology="parent"` mesh part registers a deduction with the linker
-    (`st.deduct`), after which the file can no longer be accepted; so everything is stated for `deduct = []`. -/
+    (`st.deduct`); the topology clause of such a part is only established by the linker. -/
 def Inv2 (N : Str → Prop) (sh : Shape) (dim : Nat) (st : St) : Prop :=
-  st.shape = sh ∧ st.dim = dim ∧ (st.deduct = [] → Good2 N sh dim st.stack st.node)
+  st.shape = sh ∧ st.dim = dim ∧ Good2 N sh dim st.deduct st.stack st.node
 
 /-- one transition: shape, dimension and the deduction list are kept, `Good2` is preserved -/
 def Step (N : Str → Prop) (sh : Shape) (dim : Nat) (st st' : St) : Prop :=
-  st'.shape = st.shape ∧ st'.dim = st.dim ∧ st'.deduct = st.deduct ∧ Good2 N sh dim st'.stack st'.node
+  st'.shape = st.shape ∧ st'.dim = st.dim ∧ st'.deduct = st.deduct ∧ Good2 N sh dim st'.deduct st'.stack st'.node
 
-theorem stackInv2_replace {N : Str → Prop} {sh : Shape} {dim : Nat} {f f' : Frame} {rest : List Frame}
-    (h : stackInv2 N sh dim (f :: rest)) (h1 : frameOk2 N sh dim f')
+theorem stackInv2_replace {N : Str → Prop} {sh : Shape} {dim : Nat} {ded : List Str} {f f' : Frame} {rest : List Frame}
+    (h : stackInv2 N sh dim ded (f :: rest)) (h1 : frameOk2 N sh dim ded f')
     (h2 : ∀ p tl, rest = Frame.part p :: tl → childOkP N sh dim p f → childOkP N sh dim p f')
     (h3 : ∀ name prio level nr ne patches hv tl, rest = Frame.partition name prio level nr ne patches hv :: tl →
       childOkPt nr ne f → childOkPt nr ne f') :
-    stackInv2 N sh dim (f' :: rest) := by
+    stackInv2 N sh dim ded (f' :: rest) := by
   obtain ⟨_, ha, hr⟩ := h
   refine ⟨h1, ?_, hr⟩
   cases rest with
@@ -295,12 +345,12 @@ theorem stackInv2_replace {N : Str → Prop} {sh : Shape} {dim : Nat} {f f' : Fr
     · exact h2 _ _ rfl ha
     · exact h3 _ _ _ _ _ _ _ _ rfl ha
 
-theorem stackInv2_push {N : Str → Prop} {sh : Shape} {dim : Nat} {f : Frame} {stack : List Frame}
-    (h : stackInv2 N sh dim stack) (h1 : frameOk2 N sh dim f)
+theorem stackInv2_push {N : Str → Prop} {sh : Shape} {dim : Nat} {ded : List Str} {f : Frame} {stack : List Frame}
+    (h : stackInv2 N sh dim ded stack) (h1 : frameOk2 N sh dim ded f)
     (h2 : ∀ p tl, stack = Frame.part p :: tl → childOkP N sh dim p f)
     (h3 : ∀ name prio level nr ne patches hv tl, stack = Frame.partition name prio level nr ne patches hv :: tl →
       childOkPt nr ne f) :
-    stackInv2 N sh dim (f :: stack) := by
+    stackInv2 N sh dim ded (f :: stack) := by
   refine ⟨h1, ?_, h⟩
   cases stack with
   | nil => trivial
@@ -309,13 +359,13 @@ theorem stackInv2_push {N : Str → Prop} {sh : Shape} {dim : Nat} {f : Frame} {
     · exact h2 _ _ rfl
     · exact h3 _ _ _ _ _ _ _ _ rfl
 
-theorem stackInv2_tail {N : Str → Prop} {sh : Shape} {dim : Nat} {f : Frame} {rest : List Frame}
-    (h : stackInv2 N sh dim (f :: rest)) : stackInv2 N sh dim rest := h.2.2
+theorem stackInv2_tail {N : Str → Prop} {sh : Shape} {dim : Nat} {ded : List Str} {f : Frame} {rest : List Frame}
+    (h : stackInv2 N sh dim ded (f :: rest)) : stackInv2 N sh dim ded rest := h.2.2
 
 /-! ### `contentM` -/
 
 theorem contentM_step {N : Str → Prop} {sh : Shape} {dim : Nat} {st st' : St} {line : Nat} {s : Str}
-    (hG : Good2 N sh dim st.stack st.node) (h : contentM st line s = .ok st') : Step N sh dim st st' := by
+    (hG : Good2 N sh dim st.deduct st.stack st.node) (h : contentM st line s = .ok st') : Step N sh dim st st' := by
   obtain ⟨shape, d, stack, node, links, deduct, unm⟩ := st
   obtain ⟨h4, hn⟩ := hG
   simp only at h4 hn
@@ -328,6 +378,8 @@ theorem contentM_step {N : Str → Prop} {sh : Shape} {dim : Nat} {st st' : St} 
     | mesh _ _ _ => simp [contentM, gErr] at h
     | part _ => simp [contentM, gErr] at h
     | partition _ _ _ _ _ _ => simp [contentM, gErr] at h
+    | chart _ _ => simp [contentM, gErr] at h
+    | chartItem => simp [contentM, gErr] at h
     | verts count acc =>
       obtain ⟨v, hv, hc, rfl⟩ := contentM_verts rfl h
       exact ⟨rfl, rfl, rfl, stackInv2_replace h4 trivial (fun _ _ _ _ => trivial)
@@ -416,14 +468,15 @@ def mkPart (p : PartSt) : Part :=
     attrs := p.attrs }
 
 /-- `</MeshPart>`: a completely checked part frame yields a well-formed mesh part -/
-theorem PartOk2.close {N : Str → Prop} {sh : Shape} {dim : Nat} {p : PartSt} (hp : PartOk2 N sh dim p)
+theorem PartOk2.close {N : Str → Prop} {sh : Shape} {dim : Nat} {ded : List Str} {p : PartSt} (hp : PartOk2 N sh dim ded p)
     (hm : ∀ i, i < p.sizes.length → (p.maps.getD i none).isNone = true → p.sizes.getD i 0 = 0)
     (ht : p.topoType = .full → ∀ i, i < p.topo.length → (p.topo.getD i none).isNone = true →
       p.sizes.getD (i + 1) 0 = 0) :
-    Part.wf sh dim (mkPart p) ∧ Part.wfX N p.name (mkPart p) := by
+    Part.wfIf (p.topoType ≠ .parent) sh dim (mkPart p) ∧ Part.wfX N p.name (mkPart p) ∧
+      (p.topoType ≠ .parent → (mkPart p).hasTopo = true → zeroBelow (mkPart p).sizes = false) := by
   unfold mkPart
-  refine ⟨⟨hp.sizesLen, by simp [hp.mapsLen], ?_, ?_, by simp [hp.topoLen], ?_, ?_, hp.attrs, ?_⟩,
-    ⟨rfl, hp.sizes64, hp.nameN, hp.attrsX, hp.attrsSorted⟩⟩
+  refine ⟨⟨hp.sizesLen, by simp [hp.mapsLen], ?_, ?_, by simp [hp.topoLen], ?_, ?_, hp.attrs⟩,
+    ⟨hp.sizes64, hp.nameN, hp.attrsX, hp.attrsSorted⟩, ?_⟩
   · intro d hd
     simp only
     rw [List.getD_eq_getElem?_getD, List.getElem?_map]
@@ -446,10 +499,9 @@ theorem PartOk2.close {N : Str → Prop} {sh : Shape} {dim : Nat} {p : PartSt} (
     | some l =>
       obtain ⟨d, hd⟩ := List.getElem?_of_mem ho
       exact (hp.maps d l hd).2 i (by simpa using hi)
-  · intro hT i hi
+  · intro hnp hT i hi
     simp only at hT ⊢
     have hfull : p.topoType = .full := by
-      have := hp.notParent
       cases hq : p.topoType <;> simp_all
     rw [List.getD_eq_getElem?_getD, List.getElem?_map]
     cases ho : p.topo[i]? with
@@ -472,10 +524,9 @@ theorem PartOk2.close {N : Str → Prop} {sh : Shape} {dim : Nat} {p : PartSt} (
     obtain ⟨o, ho, rfl⟩ := hts
     rw [hp.noTopo hnone o ho]
     rfl
-  · intro hT
+  · intro hnp hT
     simp only at hT ⊢
     have hfull : p.topoType = .full := by
-      have := hp.notParent
       cases hq : p.topoType <;> simp_all
     exact hp.zb hfull
 
@@ -488,7 +539,7 @@ theorem getD_sorted_bounded {ne : Nat} {patches : List (List Nat)}
   | some el => exact h el (List.mem_of_getElem? ho)
 
 theorem closeTop_step {N : Str → Prop} {sh : Shape} {dim : Nat} {st st' : St} {line : Nat}
-    (hG : Good2 N sh dim st.stack st.node) (h : closeTop st line = .ok st') : Step N sh dim st st' := by
+    (hG : Good2 N sh dim st.deduct st.stack st.node) (h : closeTop st line = .ok st') : Step N sh dim st st' := by
   obtain ⟨shape, d, stack, node, links, deduct, unm⟩ := st
   obtain ⟨h4, hn⟩ := hG
   simp only at h4 hn
@@ -498,6 +549,14 @@ theorem closeTop_step {N : Str → Prop} {sh : Shape} {dim : Nat} {st st' : St} 
     cases f with
     | root => simp [closeTop] at h; subst h; exact ⟨rfl, rfl, rfl, stackInv2_tail h4, hn⟩
     | dummy => simp [closeTop] at h; subst h; exact ⟨rfl, rfl, rfl, stackInv2_tail h4, hn⟩
+    | chartItem => simp [closeTop] at h; subst h; exact ⟨rfl, rfl, rfl, stackInv2_tail h4, hn⟩
+    | chart name c =>
+      cases c with
+      | none => simp [closeTop, gErr] at h
+      | some ch =>
+        simp [closeTop] at h; subst h
+        exact ⟨rfl, rfl, rfl, stackInv2_tail h4,
+          ⟨hn.mesh64, hn.meshZB, hn.parts, hn.partsChart, hn.partsZB, hn.partsSorted, hn.partitions⟩⟩
     | mesh sizes v topo =>
       simp only [closeTop] at h
       split at h
@@ -545,7 +604,7 @@ theorem closeTop_step {N : Str → Prop} {sh : Shape} {dim : Nat} {st st' : St} 
             subst h
             obtain ⟨_, ha, ht⟩ := h4
             obtain ⟨a0, a1, a2, a3, a4, a5, a6, a7⟩ := ha
-            have hp : PartOk2 N sh dim p := ht.1
+            have hp : PartOk2 N sh dim deduct p := ht.1
             refine ⟨rfl, rfl, rfl, stackInv2_replace ht ?_ (fun _ _ _ _ => trivial)
               (fun _ _ _ _ _ _ _ _ _ _ => trivial), hn⟩
             refine { hp with topoLen := by simpa using hp.topoLen, topo := ?_, noTopo := fun hq => absurd hq a0 }
@@ -580,7 +639,7 @@ theorem closeTop_step {N : Str → Prop} {sh : Shape} {dim : Nat} {st st' : St} 
             subst h
             obtain ⟨_, ha, ht⟩ := h4
             obtain ⟨a1, a2, a3, a4⟩ := ha
-            have hp : PartOk2 N sh dim p := ht.1
+            have hp : PartOk2 N sh dim deduct p := ht.1
             refine ⟨rfl, rfl, rfl, stackInv2_replace ht ?_ (fun _ _ _ _ => trivial)
               (fun _ _ _ _ _ _ _ _ _ _ => trivial), hn⟩
             refine { hp with mapsLen := by simpa using hp.mapsLen, maps := ?_ }
@@ -613,7 +672,7 @@ theorem closeTop_step {N : Str → Prop} {sh : Shape} {dim : Nat} {st st' : St} 
             subst h
             obtain ⟨_, ha, ht⟩ := h4
             obtain ⟨a1, a2, a3, a4, a5, a6⟩ := ha
-            have hp : PartOk2 N sh dim p := ht.1
+            have hp : PartOk2 N sh dim deduct p := ht.1
             refine ⟨rfl, rfl, rfl, stackInv2_replace ht ?_ (fun _ _ _ _ => trivial)
               (fun _ _ _ _ _ _ _ _ _ _ => trivial), hn⟩
             refine { hp with attrs := ?_, attrsX := ?_, attrsSorted := mapInsert_sorted _ _ _ hp.attrsSorted }
@@ -663,7 +722,7 @@ theorem closeTop_step {N : Str → Prop} {sh : Shape} {dim : Nat} {st st' : St} 
         · rename_i hc1 hc2
           simp only [Except.ok.injEq] at h
           subst h
-          have hp : PartOk2 N sh dim p := h4.1
+          have hp : PartOk2 N sh dim deduct p := h4.1
           have hm : ∀ i, i < p.sizes.length → (p.maps.getD i none).isNone = true → p.sizes.getD i 0 = 0 := by
             intro i hi hnone
             rcases Nat.eq_zero_or_pos (p.sizes.getD i 0) with h0 | h0
@@ -681,12 +740,22 @@ theorem closeTop_step {N : Str → Prop} {sh : Shape} {dim : Nat} {st st' : St} 
               apply hc2
               simp only [Bool.and_eq_true, List.any_eq_true]
               exact ⟨by simp [hfull], i, List.mem_range.2 hi, by rw [hnone, decide_eq_true h0]; exact ⟨rfl, rfl⟩⟩
-          have hw := hp.close hm ht
-          refine ⟨rfl, rfl, rfl, stackInv2_tail h4, { hn with parts := ?_, partsSorted := ?_ }⟩
+          obtain ⟨hw1, hw2, hw3⟩ := hp.close hm ht
+          have hnpar : p.name ∉ deduct → p.topoType ≠ .parent := fun hni hq => hni (hp.parentIn hq)
+          refine ⟨rfl, rfl, rfl, stackInv2_tail h4,
+            { hn with parts := ?_, partsChart := ?_, partsZB := ?_, partsSorted := ?_ }⟩
           · intro np hnp
             rcases mem_mapInsert _ _ _ _ _ hnp with rfl | hnp
-            · exact hw
+            · exact ⟨hw1.mono hnpar, hw2⟩
             · exact hn.parts np hnp
+          · intro np hnp
+            rcases mem_mapInsert _ _ _ _ _ hnp with rfl | hnp
+            · rfl
+            · exact hn.partsChart np hnp
+          · intro np hnp
+            rcases mem_mapInsert _ _ _ _ _ hnp with rfl | hnp
+            · exact fun hni => hw3 (hnpar hni)
+            · exact hn.partsZB np hnp
           · exact mapInsert_sorted _ _ _ hn.partsSorted
     | partition name prio level nr ne patches hv =>
       simp only [closeTop] at h
@@ -832,35 +901,54 @@ theorem meshCreate_ok2 {st : St} {line : Nat} {m : Markup} {f : Frame}
         simp only [Except.ok.injEq] at h
         exact ⟨sizes, ⟨mapMOpt_readIndex_lt hs, by simpa using hzb⟩, h.symm⟩
 
+theorem PartOk2.mono {N : Str → Prop} {sh : Shape} {dim : Nat} {ded ded' : List Str} {p : PartSt}
+    (hsub : ∀ x ∈ ded, x ∈ ded') (h : PartOk2 N sh dim ded p) : PartOk2 N sh dim ded' p :=
+  { h with parentIn := fun hq => hsub _ (h.parentIn hq) }
+
+theorem frameOk2_mono {N : Str → Prop} {sh : Shape} {dim : Nat} {ded ded' : List Str}
+    (hsub : ∀ x ∈ ded, x ∈ ded') : ∀ f : Frame, frameOk2 N sh dim ded f → frameOk2 N sh dim ded' f := by
+  intro f h
+  cases f <;> first | exact h | exact PartOk2.mono hsub h
+
+theorem stackInv2_mono {N : Str → Prop} {sh : Shape} {dim : Nat} {ded ded' : List Str}
+    (hsub : ∀ x ∈ ded, x ∈ ded') : ∀ {stack : List Frame}, stackInv2 N sh dim ded stack → stackInv2 N sh dim ded' stack
+  | [], _ => trivial
+  | _ :: _, h => ⟨frameOk2_mono hsub _ h.1, h.2.1, stackInv2_mono hsub h.2.2⟩
+
+theorem NodeOk2.mono {N : Str → Prop} {sh : Shape} {dim : Nat} {ded ded' : List Str} {n : Node}
+    (h : NodeOk2 N sh dim ded n) (hsub : ∀ x ∈ ded, x ∈ ded') : NodeOk2 N sh dim ded' n :=
+  { h with
+    parts := fun np hnp => ⟨(h.parts np hnp).1.mono (fun hni hx => hni (hsub _ hx)), (h.parts np hnp).2⟩
+    partsZB := fun np hnp hni => h.partsZB np hnp (fun hx => hni (hsub _ hx)) }
+
 theorem push_open {N : Str → Prop} {sh : Shape} {dim : Nat} {st1 st' : St} {line : Nat} {c : Bool}
     {shape : Shape} {d : Nat} {deduct : List Str}
     (h : (if c = true then closeTop st1 line else .ok st1) = .ok st')
-    (hG1 : Good2 N sh dim st1.stack st1.node) (h1 : st1.shape = shape) (h2 : st1.dim = d)
-    (h3 : st1.deduct = deduct) :
-    st'.shape = shape ∧ st'.dim = d ∧ (st'.deduct = [] → deduct = [] ∧ Good2 N sh dim st'.stack st'.node) := by
+    (hG1 : Good2 N sh dim st1.deduct st1.stack st1.node) (h1 : st1.shape = shape) (h2 : st1.dim = d)
+    (_h3 : st1.deduct = deduct) :
+    st'.shape = shape ∧ st'.dim = d ∧ Good2 N sh dim st'.deduct st'.stack st'.node := by
   split at h
   · obtain ⟨a1, a2, a3, a4⟩ := closeTop_step hG1 h
-    exact ⟨a1.trans h1, a2.trans h2, fun hd => ⟨by rw [← h3, ← a3]; exact hd, a4⟩⟩
+    exact ⟨a1.trans h1, a2.trans h2, a4⟩
   · simp only [Except.ok.injEq] at h
     subst h
-    exact ⟨h1, h2, fun hd => ⟨by rw [← h3]; exact hd, hG1⟩⟩
+    exact ⟨h1, h2, hG1⟩
 
 theorem push_open_ok {N : Str → Prop} {sh : Shape} {dim : Nat} {st1 st' : St}
     {shape : Shape} {d : Nat} {deduct : List Str}
     (h : (Except.ok st1 : Except Err St) = .ok st')
-    (hG1 : Good2 N sh dim st1.stack st1.node) (h1 : st1.shape = shape) (h2 : st1.dim = d)
-    (h3 : st1.deduct = deduct) :
-    st'.shape = shape ∧ st'.dim = d ∧ (st'.deduct = [] → deduct = [] ∧ Good2 N sh dim st'.stack st'.node) := by
+    (hG1 : Good2 N sh dim st1.deduct st1.stack st1.node) (h1 : st1.shape = shape) (h2 : st1.dim = d)
+    (_h3 : st1.deduct = deduct) :
+    st'.shape = shape ∧ st'.dim = d ∧ Good2 N sh dim st'.deduct st'.stack st'.node := by
   simp only [Except.ok.injEq] at h
   subst h
-  exact ⟨h1, h2, fun hd => ⟨by rw [← h3]; exact hd, hG1⟩⟩
+  exact ⟨h1, h2, hG1⟩
 
 theorem openM_step {N : Str → Prop} {sh : Shape} {dim : Nat} {st st' : St} {line : Nat} {m : Markup}
-    (hs : st.shape = sh) (hd : st.dim = dim) (hG : Good2 N sh dim st.stack st.node)
+    (hs : st.shape = sh) (hd : st.dim = dim) (hG : Good2 N sh dim st.deduct st.stack st.node)
     (hN0 : N []) (hNm : ∀ k v, attrOf m k = some v → N v)
     (h : openM st line m = .ok st') :
-    st'.shape = st.shape ∧ st'.dim = st.dim ∧
-      (st'.deduct = [] → st.deduct = [] ∧ Good2 N sh dim st'.stack st'.node) := by
+    st'.shape = st.shape ∧ st'.dim = st.dim ∧ Good2 N sh dim st'.deduct st'.stack st'.node := by
   obtain ⟨shape, d, stack, node, links, deduct, unm⟩ := st
   obtain ⟨h4, hn⟩ := hG
   simp only at hs hd h4 hn ⊢
@@ -880,12 +968,22 @@ theorem openM_step {N : Str → Prop} {sh : Shape} {dim : Nat} {st st' : St} {li
         (fun _ _ _ _ _ _ _ _ hh => by cases hh), hn⟩ rfl rfl rfl
     | root =>
       simp only [openM] at h
-      have hpush : ∀ f, frameOk2 N shape d f → stackInv2 N shape d (f :: Frame.root :: rest) :=
+      have hpush : ∀ f, frameOk2 N shape d deduct f → stackInv2 N shape d deduct (f :: Frame.root :: rest) :=
         fun f hf => stackInv2_push h4 hf (fun _ _ hh => by cases hh) (fun _ _ _ _ _ _ _ _ hh => by cases hh)
       split at h
       · exact push_open h ⟨hpush _ trivial, hn⟩ rfl rfl rfl
       · split at h
-        · exact push_open h ⟨hpush _ trivial, hn⟩ rfl rfl rfl
+        · split at h
+          · cases h
+          · split at h
+            · simp [gErr] at h
+            · split at h
+              · simp [gErr] at h
+              · split at h
+                · simp [gErr] at h
+                · split at h
+                  · simp [cErr] at h
+                  · exact push_open_ok h ⟨hpush _ trivial, hn⟩ rfl rfl rfl
         · split at h
           · split at h
             · simp [gErr] at h
@@ -909,18 +1007,24 @@ theorem openM_step {N : Str → Prop} {sh : Shape} {dim : Nat} {st st' : St} {li
                   simp only [Bool.false_eq_true, if_false, Except.ok.injEq] at h
                   subst h
                   refine ⟨rfl, rfl, ?_⟩
-                  intro hd0
-                  simp only at hd0
-                  rw [hded] at hd0
-                  split at hd0
-                  · simp at hd0
-                  · rename_i hnp
-                    refine ⟨hd0, hpush _ ?_, hn⟩
-                    exact {
+                  have hsub : ∀ x ∈ deduct, x ∈ deduct' := by
+                    intro x hx
+                    rw [hded]
+                    split
+                    · exact List.mem_append_left _ hx
+                    · exact hx
+                  have hpar : p.topoType = .parent → p.name ∈ deduct' := by
+                    intro hq
+                    rw [hded, hq]
+                    simp
+                  show Good2 N shape d deduct' (Frame.part p :: Frame.root :: rest) node
+                  refine ⟨stackInv2_push (stackInv2_mono hsub h4) ?_ (fun _ _ hh => by cases hh)
+                    (fun _ _ _ _ _ _ _ _ hh => by cases hh), hn.mono hsub⟩
+                  · exact {
                       sizesLen := hsl
                       mapsLen := by rw [hmaps]; simp
                       topoLen := by rw [htopo]; simp
-                      notParent := by simpa using hnp
+                      parentIn := hpar
                       maps := by
                         rw [hmaps]; intro i l hil
                         rw [List.getElem?_replicate] at hil
@@ -958,9 +1062,27 @@ theorem openM_step {N : Str → Prop} {sh : Shape} {dim : Nat} {st st' : St} {li
                       nr31 := h3
                       ne31 := h5 }
               · simp [gErr] at h
+    | chartItem => simp [openM, gErr] at h
+    | chart name c =>
+      have hrep : ∀ c', stackInv2 N shape d deduct (Frame.chart name c' :: rest) := fun c' =>
+        stackInv2_replace h4 trivial (fun _ _ _ _ => trivial) (fun _ _ _ _ _ _ _ _ _ _ => trivial)
+      have hpush : ∀ c' f, frameOk2 N shape d deduct f →
+          stackInv2 N shape d deduct (f :: Frame.chart name c' :: rest) :=
+        fun c' f hf => stackInv2_push (hrep c') hf (fun _ _ hh => by cases hh)
+          (fun _ _ _ _ _ _ _ _ hh => by cases hh)
+      simp only [openM] at h
+      repeat' split at h
+      all_goals first
+        | (simp [gErr] at h; done)
+        | (cases h; done)
+        | (simp only [Except.ok.injEq] at h; subst h; exact ⟨rfl, rfl, hrep _, hn⟩)
+        | (simp only [Except.ok.injEq] at h; subst h; exact ⟨rfl, rfl, hpush _ _ trivial, hn⟩)
+        | exact push_open h ⟨hpush _ _ trivial, hn⟩ rfl rfl rfl
+        | (obtain ⟨a1, a2, _, a4⟩ := closeTop_step (N := N) (sh := shape) (dim := d) ⟨hpush _ Frame.dummy trivial, hn⟩ h
+           exact ⟨a1, a2, a4⟩)
     | mesh sizes v topo =>
       simp only [openM] at h
-      have hpush : ∀ f, frameOk2 N shape d f → stackInv2 N shape d (f :: Frame.mesh sizes v topo :: rest) :=
+      have hpush : ∀ f, frameOk2 N shape d deduct f → stackInv2 N shape d deduct (f :: Frame.mesh sizes v topo :: rest) :=
         fun f hf => stackInv2_push h4 hf (fun _ _ hh => by cases hh) (fun _ _ _ _ _ _ _ _ hh => by cases hh)
       split at h
       · split at h
@@ -980,9 +1102,9 @@ theorem openM_step {N : Str → Prop} {sh : Shape} {dim : Nat} {st st' : St} {li
               exact push_open h ⟨hpush _ trivial, hn⟩ rfl rfl rfl
         · simp [gErr] at h
     | part p =>
-      have hp : PartOk2 N shape d p := h4.1
-      have hpush : ∀ f, frameOk2 N shape d f → childOkP N shape d p f →
-          stackInv2 N shape d (f :: Frame.part p :: rest) :=
+      have hp : PartOk2 N shape d deduct p := h4.1
+      have hpush : ∀ f, frameOk2 N shape d deduct f → childOkP N shape d p f →
+          stackInv2 N shape d deduct (f :: Frame.part p :: rest) :=
         fun f hf hc => stackInv2_push h4 hf (fun _ _ hh => by cases hh; exact hc)
           (fun _ _ _ _ _ _ _ _ hh => by cases hh)
       simp only [openM] at h
@@ -1076,58 +1198,26 @@ theorem closeTop_frame {st st' : St} {line : Nat} (h : closeTop st line = .ok st
     | (simp [gErr] at h; done)
     | (simp only [Except.ok.injEq] at h; subst h; exact ⟨rfl, rfl, rfl⟩)
 
-theorem openM_frame {st st' : St} {line : Nat} {m : Markup} (h : openM st line m = .ok st') :
-    st'.shape = st.shape ∧ st'.dim = st.dim ∧ (st'.deduct = [] → st.deduct = []) := by
-  unfold openM at h
-  simp only at h
-  repeat' (first | split at h | (simp only at h; split at h))
-  all_goals first
-    | (simp [cErr, gErr] at h; done)
-    | (cases h; done)
-    | (obtain ⟨_, _, _, _, _, _, _, hded, _⟩ := partCreate_ok2 (by assumption)
-       have hf := closeTop_frame h
-       refine ⟨hf.1, hf.2.1, fun hd => ?_⟩
-       rw [hf.2.2] at hd
-       simp only at hd
-       rw [hded] at hd
-       split at hd
-       · simp at hd
-       · exact hd)
-    | (obtain ⟨_, _, _, _, _, _, _, hded, _⟩ := partCreate_ok2 (by assumption)
-       simp only [Except.ok.injEq] at h; subst h
-       refine ⟨rfl, rfl, fun hd => ?_⟩
-       simp only at hd
-       rw [hded] at hd
-       split at hd
-       · simp at hd
-       · exact hd)
-    | (have hf := closeTop_frame h
-       exact ⟨hf.1, hf.2.1, fun hd => by rw [hf.2.2] at hd; exact hd⟩)
-    | (simp only [Except.ok.injEq] at h; subst h; exact ⟨rfl, rfl, fun hd => hd⟩)
-
 /-! ### preservation of `Inv2`, the scanner loop -/
 
 theorem contentM_inv2 {N : Str → Prop} {sh : Shape} {dim : Nat} {st st' : St} {line : Nat} {s : Str}
     (hI : Inv2 N sh dim st) (h : contentM st line s = .ok st') : Inv2 N sh dim st' := by
   obtain ⟨h1, h2, h3⟩ := hI
-  obtain ⟨f1, f2, f3⟩ := contentM_frame h
-  refine ⟨f1.trans h1, f2.trans h2, fun hd => ?_⟩
-  exact (contentM_step (h3 (by rw [← f3]; exact hd)) h).2.2.2
+  obtain ⟨f1, f2, _, f4⟩ := contentM_step h3 h
+  exact ⟨f1.trans h1, f2.trans h2, f4⟩
 
 theorem closeTop_inv2 {N : Str → Prop} {sh : Shape} {dim : Nat} {st st' : St} {line : Nat}
     (hI : Inv2 N sh dim st) (h : closeTop st line = .ok st') : Inv2 N sh dim st' := by
   obtain ⟨h1, h2, h3⟩ := hI
-  obtain ⟨f1, f2, f3⟩ := closeTop_frame h
-  refine ⟨f1.trans h1, f2.trans h2, fun hd => ?_⟩
-  exact (closeTop_step (h3 (by rw [← f3]; exact hd)) h).2.2.2
+  obtain ⟨f1, f2, _, f4⟩ := closeTop_step h3 h
+  exact ⟨f1.trans h1, f2.trans h2, f4⟩
 
 theorem openM_inv2 {N : Str → Prop} {sh : Shape} {dim : Nat} {st st' : St} {line : Nat} {m : Markup}
     (hN0 : N []) (hNm : ∀ k v, attrOf m k = some v → N v)
     (hI : Inv2 N sh dim st) (h : openM st line m = .ok st') : Inv2 N sh dim st' := by
   obtain ⟨h1, h2, h3⟩ := hI
-  obtain ⟨f1, f2, f3⟩ := openM_frame h
-  refine ⟨f1.trans h1, f2.trans h2, fun hd => ?_⟩
-  exact ((openM_step h1 h2 (h3 (f3 hd)) hN0 hNm h).2.2 hd).2
+  obtain ⟨f1, f2, f4⟩ := openM_step h1 h2 h3 hN0 hNm h
+  exact ⟨f1.trans h1, f2.trans h2, f4⟩
 
 /-- `N` holds for every attribute value of every markup line the scanner can produce from `lines` -/
 def LinesN (N : Str → Prop) (lines : List Str) : Prop :=
@@ -1160,43 +1250,454 @@ theorem Inv2_init (N : Str → Prop) (sh : Shape) (dim : Nat) :
     Inv2 N sh dim { shape := sh, dim := dim, stack := [Frame.root],
                     node := { mesh := none, parts := [], partitions := [] },
                     links := [], deduct := [], unmodelled := false } := by
-  refine ⟨rfl, rfl, fun _ => ⟨⟨trivial, trivial, trivial⟩, ?_⟩⟩
+  refine ⟨rfl, rfl, ⟨trivial, trivial, trivial⟩, ?_⟩
   exact { mesh64 := fun _ hm => by cases hm
           meshZB := fun _ hm => by cases hm
           parts := fun _ hp => by cases hp
+          partsChart := fun _ hp => by cases hp
+          partsZB := fun _ hp => by cases hp
           partsSorted := List.Pairwise.nil
           partitions := fun _ hp => by cases hp }
 
-/-- an accepted `parseBody` run: the node satisfies `NodeOk2` -/
+/-! ### the linker: `resolveLinks`, `deductTopo`, `resolveDeduct` -/
+
+theorem strLt_irrefl (a : Str) : strLt a a = false := by
+  cases h : strLt a a with
+  | false => rfl
+  | true => have := RT2.strLt_asymm a a h; rw [h] at this; cases this
+
+theorem strLt_total : ∀ (a b : Str), strLt a b = false → strLt b a = false → a = b
+  | [], [], _, _ => rfl
+  | [], _ :: _, h, _ => by simp [strLt] at h
+  | _ :: _, [], _, h => by simp [strLt] at h
+  | a :: as, b :: bs, h1, h2 => by
+    simp only [strLt] at h1 h2
+    by_cases hab : a.toNat < b.toNat
+    · simp [hab] at h1
+    · by_cases hba : b.toNat < a.toNat
+      · simp [hba] at h2
+      · simp only [hab, hba, if_false] at h1 h2
+        have e := congrArg Char.ofNat (show a.toNat = b.toNat by omega)
+        rw [Char.ofNat_toNat, Char.ofNat_toNat] at e
+        rw [e, strLt_total as bs h1 h2]
+
+theorem sorted_unique {α : Type} : ∀ (l : List (Str × α)), l.Pairwise (fun a b => strLt a.1 b.1 = true) →
+    ∀ x ∈ l, ∀ y ∈ l, x.1 = y.1 → x = y
+  | [], _, x, hx, _, _, _ => by cases hx
+  | a :: t, h, x, hx, y, hy, hxy => by
+    rw [List.pairwise_cons] at h
+    simp only [List.mem_cons] at hx hy
+    rcases hx with rfl | hx <;> rcases hy with rfl | hy
+    · rfl
+    · have := h.1 y hy
+      rw [hxy, strLt_irrefl] at this
+      cases this
+    · have := h.1 x hx
+      rw [← hxy, strLt_irrefl] at this
+      cases this
+    · exact sorted_unique t h.2 x hx y hy hxy
+
+theorem mapFind_mem_key {α : Type} (k : Str) : ∀ (l : List (Str × α)) (v : α),
+    mapFind strLt k l = some v → (k, v) ∈ l
+  | [], v, h => by simp [mapFind] at h
+  | (k', v') :: rest, v, h => by
+    unfold mapFind at h
+    split at h
+    · rename_i hc
+      simp only [Bool.and_eq_true, Bool.not_eq_true'] at hc
+      have := strLt_total k k' hc.1 hc.2
+      subst this
+      cases h
+      simp
+    · exact List.mem_cons_of_mem _ (mapFind_mem_key k rest v h)
+
+theorem mapMOpt_getElem? {α β : Type} (f : α → Option β) :
+    ∀ (l : List α) (bs : List β), mapMOpt f l = some bs → ∀ (i : Nat) (a : α), l[i]? = some a →
+      ∃ b, bs[i]? = some b ∧ f a = some b
+  | [], bs, h, i, a, hi => by simp at hi
+  | x :: xs, bs, h, i, a, hi => by
+    unfold mapMOpt at h
+    split at h
+    · cases h
+    · rename_i b0 hb0
+      split at h
+      · cases h
+      · rename_i bs' hbs
+        cases h
+        cases i with
+        | zero =>
+          simp only [List.getElem?_cons_zero, Option.some.injEq] at hi
+          subst hi
+          exact ⟨b0, by simp, hb0⟩
+        | succ j =>
+          simp only [List.getElem?_cons_succ] at hi
+          simpa using mapMOpt_getElem? f xs bs' hbs j a hi
+
+theorem mapMOpt_isSome {α β : Type} (f : α → Option β) :
+    ∀ (l : List α), (∀ a ∈ l, (f a).isSome = true) → ∃ bs, mapMOpt f l = some bs
+  | [], _ => ⟨[], rfl⟩
+  | x :: xs, h => by
+    obtain ⟨b, hb⟩ := Option.isSome_iff_exists.1 (h x (by simp))
+    obtain ⟨bs, hbs⟩ := mapMOpt_isSome f xs (fun a ha => h a (by simp [ha]))
+    exact ⟨b :: bs, by simp [mapMOpt, hb, hbs]⟩
+
+theorem invVertex_aux (v : Nat) : ∀ (l : List Nat) (k : Nat) (init : Option Nat) (j : Nat),
+    (l.zipIdx k).foldl (fun acc xi => if xi.1 == v then some xi.2 else acc) init = some j →
+    init = some j ∨ (k ≤ j ∧ j < k + l.length ∧ l[j - k]? = some v)
+  | [], k, init, j, h => by
+    simp only [List.zipIdx_nil, List.foldl_nil] at h
+    exact Or.inl h
+  | x :: xs, k, init, j, h => by
+    simp only [List.zipIdx_cons, List.foldl_cons] at h
+    rcases invVertex_aux v xs (k + 1) _ j h with h1 | ⟨h1, h2, h3⟩
+    · by_cases hx : x = v
+      · subst hx
+        simp only [beq_self_eq_true, if_true, Option.some.injEq] at h1
+        subst h1
+        right
+        exact ⟨Nat.le_refl _, by simp, by simp⟩
+      · have : (x == v) = false := by simpa using hx
+        simp only [this, Bool.false_eq_true, if_false] at h1
+        exact Or.inl h1
+    · right
+      refine ⟨by omega, by simp only [List.length_cons]; omega, ?_⟩
+      have : j - k = (j - (k + 1)) + 1 := by omega
+      rw [this, List.getElem?_cons_succ]
+      exact h3
+
+/-- a deduced local index is a position in the vertex mapping that holds the parent's vertex -/
+theorem invVertex_some {vmap : List Nat} {v j : Nat} (h : invVertex vmap v = some j) :
+    j < vmap.length ∧ vmap[j]? = some v := by
+  unfold invVertex at h
+  rcases invVertex_aux v vmap 0 none j h with h1 | ⟨_, h2, h3⟩
+  · cases h1
+  · exact ⟨by omega, by simpa using h3⟩
+
+theorem invVertex_aux_isSome (v : Nat) : ∀ (l : List Nat) (k : Nat) (init : Option Nat),
+    (init.isSome = true ∨ v ∈ l) →
+    ((l.zipIdx k).foldl (fun acc xi => if xi.1 == v then some xi.2 else acc) init).isSome = true
+  | [], k, init, h => by
+    simp only [List.zipIdx_nil, List.foldl_nil]
+    rcases h with h | h
+    · exact h
+    · cases h
+  | x :: xs, k, init, h => by
+    simp only [List.zipIdx_cons, List.foldl_cons]
+    apply invVertex_aux_isSome v xs (k + 1)
+    by_cases hx : x = v
+    · left; simp [hx]
+    · have hb : (x == v) = false := by simpa using hx
+      rcases h with h | h
+      · left; simp [hb, h]
+      · right
+        simp only [List.mem_cons] at h
+        rcases h with h | h
+        · exact absurd h.symm hx
+        · exact h
+
+theorem invVertex_isSome {vmap : List Nat} {v : Nat} (h : v ∈ vmap) : (invVertex vmap v).isSome = true :=
+  invVertex_aux_isSome v vmap 0 none (Or.inr h)
+
+/-- **restriction of the parent's index sets**: what `deductTopo` returns -/
+theorem deductTopo_spec {m : Mesh} {p : Part} {t : List (List (List Nat))} (h : deductTopo m p = some t) :
+    t.length = m.topo.length ∧
+    ∀ d, d < m.topo.length → (t.getD d []).length = (p.maps.getD (d + 1) []).length ∧
+      ∀ (k c : Nat), (p.maps.getD (d + 1) [])[k]? = some c →
+        ∃ tup : List Nat, (t.getD d [])[k]? = some tup ∧ tup.length = ((m.topo.getD d []).getD c []).length ∧
+          ∀ (j v : Nat), ((m.topo.getD d []).getD c [])[j]? = some v →
+            ∃ x : Nat, tup[j]? = some x ∧ x < (p.maps.getD 0 []).length ∧ (p.maps.getD 0 [])[x]? = some v := by
+  unfold deductTopo at h
+  refine ⟨by simpa using mapMOpt_length _ _ _ h, ?_⟩
+  intro d hd
+  obtain ⟨ti, hti, hcell⟩ := mapMOpt_getElem? _ _ _ h d d (by simp [hd])
+  have htd : t.getD d [] = ti := by rw [List.getD_eq_getElem?_getD, hti]; rfl
+  rw [htd]
+  refine ⟨mapMOpt_length _ _ _ hcell, ?_⟩
+  intro k c hk
+  obtain ⟨tup, htup, hv⟩ := mapMOpt_getElem? _ _ _ hcell k c hk
+  refine ⟨tup, htup, mapMOpt_length _ _ _ hv, ?_⟩
+  intro j v hj
+  obtain ⟨x, hx, hinv⟩ := mapMOpt_getElem? _ _ _ hv j v hj
+  exact ⟨x, hx, invVertex_some hinv⟩
+
+/-- totality: if every vertex of every selected cell occurs in the part's vertex mapping, the deduction succeeds -/
+theorem deductTopo_total {m : Mesh} {p : Part}
+    (h : ∀ d, d < m.topo.length → ∀ c ∈ p.maps.getD (d + 1) [], ∀ v ∈ (m.topo.getD d []).getD c [],
+      v ∈ p.maps.getD 0 []) :
+    ∃ t, deductTopo m p = some t := by
+  unfold deductTopo
+  apply mapMOpt_isSome
+  intro d hd
+  rw [List.mem_range] at hd
+  obtain ⟨ti, hti⟩ := mapMOpt_isSome
+    (fun c => mapMOpt (invVertex (p.maps.getD 0 [])) ((m.topo.getD d []).getD c [])) (p.maps.getD (d + 1) []) (by
+      intro c hc
+      obtain ⟨tup, htup⟩ := mapMOpt_isSome (invVertex (p.maps.getD 0 [])) ((m.topo.getD d []).getD c [])
+        (fun v hv => invVertex_isSome (h d hd c hc v hv))
+      rw [htup]; rfl)
+  rw [hti]; rfl
+
+/-- the deduced topology of a mesh part whose mapping indices are entities of a well-formed root mesh is a
+    well-formed topology of the part: one tuple per cell, parent tuple width, entries are positions in the vertex
+    mapping -/
+theorem deductTopo_wf {sh : Shape} {dim : Nat} {m : Mesh} {p : Part} {t : List (List (List Nat))}
+    (hm : m.wf sh dim = true) (h : deductTopo m p = some t)
+    (hlen : ∀ d, d ≤ dim → (p.maps.getD d []).length = p.sizes.getD d 0)
+    (hrange : ∀ d, ∀ i ∈ p.maps.getD d [], i < m.sizes.getD d 0) :
+    t.length = dim ∧ ∀ i, i < dim →
+      (t.getD i []).length = p.sizes.getD (i + 1) 0 ∧
+      ∀ tup ∈ t.getD i [], tup.length = nverts sh (i + 1) ∧ ∀ x ∈ tup, x < p.sizes.getD 0 0 := by
+  obtain ⟨-, -, -, htl, htp⟩ := (Mesh.wf_iff sh dim m).1 hm
+  obtain ⟨h1, h2⟩ := deductTopo_spec h
+  rw [htl] at h1 h2
+  refine ⟨h1, ?_⟩
+  intro i hi
+  obtain ⟨h3, h4⟩ := h2 i hi
+  refine ⟨by rw [h3]; exact hlen (i + 1) (by omega), ?_⟩
+  intro tup htup
+  obtain ⟨k, hk⟩ := List.getElem?_of_mem htup
+  have hkl : k < (p.maps.getD (i + 1) []).length := by
+    rw [← h3]
+    exact (List.getElem?_eq_some_iff.1 hk).1
+  obtain ⟨tup', htup', hlen', hent⟩ := h4 k _ (List.getElem?_eq_getElem hkl)
+  rw [hk] at htup'
+  cases htup'
+  generalize hc : (p.maps.getD (i + 1) [])[k] = c at hlen' hent
+  have hcm : c ∈ p.maps.getD (i + 1) [] := by rw [← hc]; exact List.getElem_mem hkl
+  have hcl : c < (m.topo.getD i []).length := by
+    rw [(htp i hi).1]; exact hrange (i + 1) c hcm
+  have hcell : (m.topo.getD i []).getD c [] ∈ m.topo.getD i [] := by
+    have : (m.topo.getD i []).getD c [] = (m.topo.getD i [])[c] := by
+      rw [List.getD_eq_getElem?_getD (l := m.topo.getD i []), List.getElem?_eq_getElem hcl]; rfl
+    rw [this]
+    exact List.getElem_mem hcl
+  refine ⟨by rw [hlen']; exact ((htp i hi).2 _ hcell).1, ?_⟩
+  intro x hx
+  obtain ⟨j, hj⟩ := List.getElem?_of_mem hx
+  have hjl : j < ((m.topo.getD i []).getD c []).length := by
+    rw [← hlen']
+    exact (List.getElem?_eq_some_iff.1 hj).1
+  obtain ⟨x', hx', hlt, -⟩ := hent j _ (List.getElem?_eq_getElem hjl)
+  rw [hj] at hx'
+  cases hx'
+  rw [← hlen 0 (Nat.zero_le _)]
+  exact hlt
+
+/-- the keys of the mesh-part map after one linker step -/
+theorem map_keys_if {pn : Str} {f : Part → Part} (parts : List (Str × Part)) :
+    (parts.map (fun np => if np.1 == pn then (np.1, f np.2) else np)).map (·.1) = parts.map (·.1) := by
+  rw [List.map_map]
+  apply List.map_congr_left
+  intro np _
+  simp only [Function.comp]
+  split <;> rfl
+
+theorem sorted_of_keys {l l' : List (Str × Part)} (hk : l'.map (·.1) = l.map (·.1))
+    (h : l.Pairwise (fun a b => strLt a.1 b.1 = true)) : l'.Pairwise (fun a b => strLt a.1 b.1 = true) := by
+  have h1 : (l.map (·.1)).Pairwise (fun a b => strLt a b = true) := List.pairwise_map.2 h
+  rw [← hk] at h1
+  exact List.pairwise_map.1 h1
+
+/-- `resolveLinks`, element-wise: every part keeps its name and all fields but `chart`, which is either kept or
+    set to the name of a chart of the atlas -/
+theorem resolveLinks_mem : ∀ (links : List (Str × Str)) (n n' : Node), resolveLinks links n = some n' →
+    n'.parts.map (·.1) = n.parts.map (·.1) ∧
+    ∀ np' ∈ n'.parts, ∃ np ∈ n.parts, np'.1 = np.1 ∧ ∃ c, np'.2 = { np.2 with chart := c } ∧
+      (c = np.2.chart ∨ (mapFind strLt c n.charts).isSome = true)
+  | [], n, n', h => by
+    simp only [resolveLinks, Option.some.injEq] at h
+    subst h
+    exact ⟨rfl, fun np hnp => ⟨np, hnp, rfl, np.2.chart, rfl, Or.inl rfl⟩⟩
+  | (pn, cn) :: rest, n, n', h => by
+    simp only [resolveLinks] at h
+    split at h
+    · cases h
+    · rename_i hc
+      have ih := resolveLinks_mem rest _ n' h
+      obtain ⟨ih1, ih2⟩ := ih
+      refine ⟨ih1.trans (map_keys_if (pn := pn) (f := fun q => { q with chart := cn }) n.parts), ?_⟩
+      intro np' hnp'
+      obtain ⟨np2, hnp2, e1, c, e2, e3⟩ := ih2 np' hnp'
+      simp only [List.mem_map] at hnp2
+      obtain ⟨np, hnp, rfl⟩ := hnp2
+      refine ⟨np, hnp, ?_, c, ?_, ?_⟩
+      · rw [e1]; split <;> rfl
+      · rw [e2]; split <;> rfl
+      · rcases e3 with e3 | e3
+        · split at e3
+          · right
+            rw [e3]
+            cases hq : mapFind strLt cn n.charts <;> simp_all
+          · exact Or.inl e3
+        · exact Or.inr e3
+
+/-- `resolveDeduct`, element-wise: every part keeps its name and all fields but `topo`; the topology of a part
+    that is not on the list is kept, that of a part on the list is the one deduced from the root mesh -/
+theorem resolveDeduct_mem : ∀ (ded : List Str) (n n' : Node), resolveDeduct ded n = some n' →
+    n.parts.Pairwise (fun a b => strLt a.1 b.1 = true) →
+    n'.parts.map (·.1) = n.parts.map (·.1) ∧
+    ∀ np' ∈ n'.parts, ∃ np ∈ n.parts, np'.1 = np.1 ∧ ∃ t, np'.2 = { np.2 with topo := t } ∧
+      (np.1 ∉ ded → t = np.2.topo) ∧
+      (np.1 ∈ ded → ∃ m, n.mesh = some m ∧ deductTopo m np.2 = some t)
+  | [], n, n', h, _ => by
+    simp only [resolveDeduct, Option.some.injEq] at h
+    subst h
+    exact ⟨rfl, fun np hnp => ⟨np, hnp, rfl, np.2.topo, rfl, fun _ => rfl, fun hx => by cases hx⟩⟩
+  | pn :: rest, n, n', h, hs => by
+    simp only [resolveDeduct] at h
+    split at h
+    · rename_i m p hmesh hfind
+      split at h
+      · cases h
+      · rename_i t0 ht0
+        have hs2 := sorted_of_keys (map_keys_if (pn := pn) (f := fun q => { q with topo := t0 }) n.parts) hs
+        obtain ⟨ih1, ih2⟩ := resolveDeduct_mem rest _ n' h hs2
+        refine ⟨ih1.trans (map_keys_if (pn := pn) (f := fun q => { q with topo := t0 }) n.parts), ?_⟩
+        intro np' hnp'
+        obtain ⟨np2, hnp2, e1, t, e2, e3, e4⟩ := ih2 np' hnp'
+        simp only [List.mem_map] at hnp2
+        obtain ⟨np, hnp, rfl⟩ := hnp2
+        by_cases hpn : np.1 = pn
+        · have hb : (np.1 == pn) = true := by simpa using hpn
+          simp only [hb, if_true] at e1 e2 e3 e4
+          have hnpp : np = (pn, p) :=
+            sorted_unique _ hs np hnp (pn, p) (mapFind_mem_key pn _ p hfind) hpn
+          have hded : deductTopo m np.2 = some t0 := by rw [hnpp]; exact ht0
+          refine ⟨np, hnp, e1, t, e2, fun hni => absurd (List.mem_cons.2 (Or.inl hpn)) hni, fun _ => ⟨m, hmesh, ?_⟩⟩
+          by_cases hr : np.1 ∈ rest
+          · obtain ⟨m', hm', hd'⟩ := e4 hr
+            have hm' : n.mesh = some m' := hm'
+            rw [hmesh] at hm'
+            cases hm'
+            exact hd'
+          · rw [e3 hr]
+            exact hded
+        · have hb : (np.1 == pn) = false := by simpa using hpn
+          simp only [hb, Bool.false_eq_true, if_false] at e1 e2 e3 e4
+          refine ⟨np, hnp, e1, t, e2, fun hni => e3 (fun hx => hni (List.mem_cons_of_mem _ hx)), ?_⟩
+          intro hx
+          simp only [List.mem_cons] at hx
+          rcases hx with hx | hx
+          · exact absurd hx hpn
+          · exact e4 hx
+    · cases h
+
+theorem resolveDeduct_mapOutOfRange : ∀ (ded : List Str) (n n' : Node), resolveDeduct ded n = some n' →
+    mapOutOfRange n' = mapOutOfRange n
+  | [], n, n', h => by simp only [resolveDeduct, Option.some.injEq] at h; subst h; rfl
+  | pn :: rest, n, n', h => by
+    simp only [resolveDeduct] at h
+    split at h
+    · split at h
+      · cases h
+      · rw [resolveDeduct_mapOutOfRange rest _ n' h]
+        unfold mapOutOfRange
+        simp only
+        split
+        · rfl
+        · rw [List.any_map]
+          congr 1
+          funext np
+          simp only [Function.comp]
+          split <;> rfl
+    · cases h
+
+/-- what is known about an accepted node: like `NodeOk2`, with the complete `Part.wf` for every mesh part
+    (deducted topologies included) and chart references that resolve -/
+structure NodeOk3 (N : Str → Prop) (sh : Shape) (dim : Nat) (n : Node) : Prop where
+  mesh64 : ∀ m, n.mesh = some m → ∀ s ∈ m.sizes, s < 2 ^ 64
+  meshZB : ∀ m, n.mesh = some m → zeroBelow m.sizes = false
+  parts : ∀ np ∈ n.parts, Part.wf sh dim np.2 ∧ Part.wfX N np.1 np.2
+  partsChart : ∀ np ∈ n.parts, np.2.chart = [] ∨ (mapFind strLt np.2.chart n.charts).isSome = true
+  partsSorted : n.parts.Pairwise (fun a b => strLt a.1 b.1 = true)
+  partitions : ∀ p ∈ n.partitions, p.wf ∧ p.wfX N
+
+/-- an accepted `parseBody` run: the node satisfies `NodeOk3`; the parts that are not on the linker's deduction
+    list have no entity count of zero below a non-zero one -/
 theorem parseBody_node_ok {N : Str → Prop} {sh sh' : Shape} {dim dim' : Nat} {m : Markup} {iline : Nat}
     {rest : List Str} {n : Node} (hN0 : N []) (hN : LinesN N rest)
     (h : parseBody sh dim m iline rest = .ok sh' dim' n) :
-    sh' = sh ∧ dim' = dim ∧ NodeOk2 N sh dim n ∧ mapOutOfRange n = false := by
-  unfold parseBody at h
-  split at h
-  · cases h
-  · simp only at h
-    split at h
-    · cases h
-    · rename_i st hscan
-      have hI := scanLoop_inv2 hN0 _ hN _ _ _ _ (Inv2_init N sh dim) hscan
-      split at h
-      · cases h
-      · split at h
-        · cases h
-        · split at h
-          · cases h
-          · rename_i hmap
-            split at h
-            · split at h <;> cases h
-            · rename_i hded
-              simp only [Outcome.ok.injEq] at h
-              obtain ⟨rfl, rfl, rfl⟩ := h
-              have hd : st.deduct = [] := by
-                cases hq : st.deduct with
-                | nil => rfl
-                | cons a l => simp [hq] at hded
-              exact ⟨rfl, rfl, (hI.2.2 hd).2, by simpa using hmap⟩
+    sh' = sh ∧ dim' = dim ∧ NodeOk3 N sh dim n ∧ mapOutOfRange n = false ∧
+    ∃ st : St, scanLoop meshClient rest iline [m.name]
+        { shape := sh, dim := dim, stack := [Frame.root], node := { mesh := none, parts := [], partitions := [] },
+          links := [], deduct := [], unmodelled := false } = .ok st ∧
+      n.charts = st.node.charts ∧ (n.charts = [] → st.links = []) ∧
+      ∀ np ∈ n.parts, np.1 ∉ st.deduct →
+        (np.2.hasTopo = true → zeroBelow np.2.sizes = false) ∧ np.2.noTopoEmpty := by
+  have hmwf := fun msh hm => parseBody_mesh_wf' (msh := msh) h hm
+  obtain ⟨rfl, rfl, st, n1, hscan, _, hl, hmap, hd⟩ := parseBody_ok_run h
+  obtain ⟨_, _, hstack, hn⟩ := scanLoop_inv2 hN0 _ hN _ _ _ _ (Inv2_init N _ _) hscan
+  obtain ⟨l1, l2, l3⟩ := resolveLinks_fields _ _ _ hl
+  obtain ⟨d1, d2, d3⟩ := resolveDeduct_fields _ _ _ hd
+  obtain ⟨lk, lm⟩ := resolveLinks_mem _ _ _ hl
+  have hs1 : n1.parts.Pairwise (fun a b => strLt a.1 b.1 = true) := sorted_of_keys lk hn.partsSorted
+  obtain ⟨dk, dm⟩ := resolveDeduct_mem _ _ _ hd hs1
+  have hmap' : mapOutOfRange n = false := by rw [resolveDeduct_mapOutOfRange _ _ _ hd]; exact hmap
+  -- every part of the result comes from a part of the scanner state
+  have hfrom : ∀ np' ∈ n.parts, ∃ np ∈ st.node.parts, np'.1 = np.1 ∧ ∃ c t,
+      np'.2 = { np.2 with chart := c, topo := t } ∧ (c = [] ∨ (mapFind strLt c n.charts).isSome = true) ∧
+      (np.1 ∉ st.deduct → t = np.2.topo) ∧
+      (np.1 ∈ st.deduct → ∃ msh, n.mesh = some msh ∧ deductTopo msh np.2 = some t) := by
+    intro np' hnp'
+    obtain ⟨np1, hnp1, e1, t, e2, e3, e4⟩ := dm np' hnp'
+    obtain ⟨np, hnp, f1, c, f2, f3⟩ := lm np1 hnp1
+    refine ⟨np, hnp, e1.trans f1, c, t, ?_, ?_, ?_, ?_⟩
+    · rw [e2, f2]
+    · rcases f3 with f3 | f3
+      · left; rw [f3]; exact hn.partsChart np hnp
+      · right; rw [d3, l3]; exact f3
+    · intro hni
+      rw [e3 (by rw [f1]; exact hni), f2]
+    · intro hi
+      obtain ⟨msh, hm1, hd1⟩ := e4 (by rw [f1]; exact hi)
+      refine ⟨msh, by rw [d1]; exact hm1, ?_⟩
+      rw [f2] at hd1
+      exact hd1
+  refine ⟨rfl, rfl, ?_, hmap', st, hscan, by rw [d3, l3], ?_, ?_⟩
+  · refine ⟨fun msh hm => hn.mesh64 msh (by rw [← l1, ← d1]; exact hm),
+      fun msh hm => hn.meshZB msh (by rw [← l1, ← d1]; exact hm), ?_, ?_,
+      sorted_of_keys dk hs1, fun p hp => hn.partitions p (by rw [← l2, ← d2]; exact hp)⟩
+    · intro np' hnp'
+      obtain ⟨np, hnp, e1, c, t, e2, -, e4, e5⟩ := hfrom np' hnp'
+      obtain ⟨⟨a1, a2, a3, a4, a5, a6, a7, a8⟩, hx⟩ := hn.parts np hnp
+      refine ⟨?_, by rw [e1, e2]; exact hx⟩
+      rw [e2]
+      by_cases hi : np.1 ∈ st.deduct
+      · obtain ⟨msh, hm, hdt⟩ := e5 hi
+        have hr : ∀ d, ∀ i ∈ np.2.maps.getD d [], i < msh.sizes.getD d 0 := by
+          intro d i hid
+          have hmo := hmap'
+          unfold mapOutOfRange at hmo
+          rw [hm] at hmo
+          simp only at hmo
+          rw [List.any_eq_false] at hmo
+          have := hmo np' hnp'
+          rw [e2] at this
+          simp only [Bool.not_eq_true] at this
+          exact (zipIdx_any_ge_false_iff np.2.maps (fun d => msh.sizes.getD d 0)).1 this d i hid
+        obtain ⟨w1, w2⟩ := deductTopo_wf (hmwf msh hm) hdt a3 hr
+        exact ⟨a1, a2, a3, a4, w1, fun _ => w2, a8⟩
+      · rw [e4 hi]
+        exact ⟨a1, a2, a3, a4, a5, a6 hi, a8⟩
+    · intro np' hnp'
+      obtain ⟨np, hnp, e1, c, t, e2, e3, -, -⟩ := hfrom np' hnp'
+      rw [e2]
+      exact e3
+  · intro hc
+    cases hq : st.links with
+    | nil => rfl
+    | cons a l =>
+      rw [hq] at hl
+      obtain ⟨pn, cn⟩ := a
+      simp only [resolveLinks] at hl
+      rw [d3, l3] at hc
+      rw [hc] at hl
+      simp [mapFind] at hl
+  · intro np' hnp' hni
+    obtain ⟨np, hnp, e1, c, t, e2, -, e4, -⟩ := hfrom np' hnp'
+    have hni' : np.1 ∉ st.deduct := by rw [← e1]; exact hni
+    rw [e2, e4 hni']
+    exact ⟨fun hT => hn.partsZB np hnp hni' hT, (hn.parts np hnp).1.2.2.2.2.2.2.1⟩
 
 end S2
 
@@ -1282,37 +1783,10 @@ theorem parseMeshFile_mapping_nonempty {text : Str} {sh : Shape} {dim : Nat} {n 
 
 /-! ### the guarantees of the fixed reader: mapping ranges, partition element counts, entity counts -/
 
-theorem zipIdx_any_ge_false_iff (l : List (List Nat)) (f : Nat → Nat) :
-    l.zipIdx.any (fun (idx, d) => idx.any (fun i => i ≥ f d)) = false ↔
-      ∀ d, ∀ i ∈ l.getD d [], i < f d := by
-  constructor
-  · intro h d i hi
-    rw [List.getD_eq_getElem?_getD] at hi
-    cases hd : l[d]? with
-    | none => rw [hd] at hi; simp at hi
-    | some idx =>
-      rw [hd] at hi
-      simp only [Option.getD_some] at hi
-      have hm : (idx, d) ∈ l.zipIdx := List.mem_zipIdx_iff_getElem?.2 hd
-      rw [List.any_eq_false] at h
-      have := h (idx, d) hm
-      simp only [List.any_eq_true, not_exists, not_and] at this
-      have := this i hi
-      simpa using this
-  · intro h
-    rw [List.any_eq_false]
-    intro x hx
-    obtain ⟨idx, d⟩ := x
-    have hd : l[d]? = some idx := List.mem_zipIdx_iff_getElem?.1 hx
-    simp only [List.any_eq_true, not_exists, not_and]
-    intro i hi
-    have := h d i (by rw [List.getD_eq_getElem?_getD, hd]; exact hi)
-    simp only [ge_iff_le, decide_eq_true_eq]
-    omega
-
 /-- `mapOutOfRange` spelled out: every mapping index of every mesh part is an entity index of the root mesh -/
-theorem mapOutOfRange_false_iff (m : Mesh) (parts : List (Str × Part)) (pts : List Partition) :
-    mapOutOfRange ⟨some m, parts, pts⟩ = false ↔
+theorem mapOutOfRange_false_iff (m : Mesh) (parts : List (Str × Part)) (pts : List Partition)
+    (chs : List (Str × Chart) := []) :
+    mapOutOfRange ⟨some m, parts, pts, chs⟩ = false ↔
       ∀ np ∈ parts, ∀ d, ∀ i ∈ np.2.maps.getD d [], i < m.sizes.getD d 0 := by
   show (parts.any (fun np => np.2.maps.zipIdx.any (fun (idx, d) => idx.any (fun i => i ≥ m.sizes.getD d 0)))) = false
     ↔ _
@@ -1324,20 +1798,20 @@ theorem mapOutOfRange_false_iff (m : Mesh) (parts : List (Str × Part)) (pts : L
     rw [(zipIdx_any_ge_false_iff np.2.maps (fun d => m.sizes.getD d 0)).2 (h np hnp)]
     simp
 
-theorem mapOutOfRange_nomesh (parts : List (Str × Part)) (pts : List Partition) :
-    mapOutOfRange ⟨none, parts, pts⟩ = false := rfl
+theorem mapOutOfRange_nomesh (parts : List (Str × Part)) (pts : List Partition) (chs : List (Str × Chart) := []) :
+    mapOutOfRange ⟨none, parts, pts, chs⟩ = false := rfl
 
 /-- an accepted `parseBody` run (any markup): the node invariant and the linker's range check -/
 theorem parseBody_node_ok' {sh sh' : Shape} {dim dim' : Nat} {m : Markup} {iline : Nat} {rest : List Str}
     {n : Node} (h : parseBody sh dim m iline rest = .ok sh' dim' n) :
-    S2.NodeOk2 (fun _ => True) sh' dim' n ∧ mapOutOfRange n = false := by
-  obtain ⟨rfl, rfl, hn, hmap⟩ :=
+    S2.NodeOk3 (fun _ => True) sh' dim' n ∧ mapOutOfRange n = false := by
+  obtain ⟨rfl, rfl, hn, hmap, _⟩ :=
     S2.parseBody_node_ok (N := fun _ => True) trivial (fun _ _ _ _ _ _ _ => trivial) h
   exact ⟨hn, hmap⟩
 
 theorem parseMeshFile_node_ok' {text : Str} {sh : Shape} {dim : Nat} {n : Node}
     (h : parseMeshFile text = .ok sh dim n) :
-    S2.NodeOk2 (fun _ => True) sh dim n ∧ mapOutOfRange n = false := by
+    S2.NodeOk3 (fun _ => True) sh dim n ∧ mapOutOfRange n = false := by
   unfold parseMeshFile at h
   repeat' split at h
   all_goals first
@@ -1346,7 +1820,7 @@ theorem parseMeshFile_node_ok' {text : Str} {sh : Shape} {dim : Nat} {n : Node}
 
 theorem reparse_node_ok' {text : Str} {sh sh' : Shape} {dim dim' : Nat} {n : Node}
     (h : reparse sh dim text = .ok sh' dim' n) :
-    S2.NodeOk2 (fun _ => True) sh' dim' n ∧ mapOutOfRange n = false := by
+    S2.NodeOk3 (fun _ => True) sh' dim' n ∧ mapOutOfRange n = false := by
   unfold reparse at h
   repeat' split at h
   all_goals first
@@ -1364,10 +1838,10 @@ theorem parseMeshFile_mapping_lt {text : Str} {sh : Shape} {dim : Nat} {n : Node
     (h : parseMeshFile text = .ok sh dim n) (hm : n.mesh = some m) :
     ∀ np ∈ n.parts, ∀ d, ∀ i ∈ np.2.maps.getD d [], i < m.sizes.getD d 0 := by
   have hr := parseMeshFile_mapping_in_range h
-  obtain ⟨mesh, parts, pts⟩ := n
+  obtain ⟨mesh, parts, pts, chs⟩ := n
   simp only at hm
   subst hm
-  exact (mapOutOfRange_false_iff m parts pts).1 hr
+  exact (mapOutOfRange_false_iff m parts pts chs).1 hr
 
 theorem reparse_mapping_in_range {text : Str} {sh sh' : Shape} {dim dim' : Nat} {n : Node}
     (h : reparse sh dim text = .ok sh' dim' n) : mapOutOfRange n = false :=
@@ -1441,24 +1915,13 @@ theorem parseMeshFile_sizes_no_zero_below {text : Str} {sh : Shape} {dim : Nat} 
     (h : parseMeshFile text = .ok sh dim n) (hm : n.mesh = some m) : zeroBelow m.sizes = false :=
   (parseMeshFile_node_ok' h).1.meshZB m hm
 
-/-- the same for mesh parts with an own topology -/
-theorem parseMeshFile_parts_no_zero_below {text : Str} {sh : Shape} {dim : Nat} {n : Node}
-    (h : parseMeshFile text = .ok sh dim n) :
-    ∀ np ∈ n.parts, np.2.hasTopo = true → zeroBelow np.2.sizes = false :=
-  fun np hnp => (parseMeshFile_parts_wf text sh dim n h np hnp).2.2.2.2.2.2.2.2
-
-theorem reparse_parts_no_zero_below {text : Str} {sh sh' : Shape} {dim dim' : Nat} {n : Node}
-    (h : reparse sh dim text = .ok sh' dim' n) :
-    ∀ np ∈ n.parts, np.2.hasTopo = true → zeroBelow np.2.sizes = false :=
-  fun np hnp => (reparse_parts_wf sh sh' dim dim' text n h np hnp).2.2.2.2.2.2.2.2
-
 /-- attribute dimensions fit a signed 32-bit `int` -/
 theorem parseMeshFile_attr_dim {text : Str} {sh : Shape} {dim : Nat} {n : Node}
     (h : parseMeshFile text = .ok sh dim n) :
     ∀ np ∈ n.parts, ∀ na ∈ np.2.attrs, 0 < na.2.dim ∧ na.2.dim ≤ 2 ^ 31 - 1 :=
   fun np hnp na hna =>
-    ⟨((parseMeshFile_parts_wf text sh dim n h np hnp).2.2.2.2.2.2.2.1 na hna).1,
-     ((parseMeshFile_parts_wf text sh dim n h np hnp).2.2.2.2.2.2.2.1 na hna).2.1⟩
+    ⟨((parseMeshFile_parts_wf text sh dim n h np hnp).2.2.2.2.2.2 na hna).1,
+     ((parseMeshFile_parts_wf text sh dim n h np hnp).2.2.2.2.2.2 na hna).2.1⟩
 
 /-! ### stretch: attribute values delivered by the scanner are admissible names (`NameOk`) -/
 
@@ -1702,9 +2165,10 @@ theorem NameOk_nil : NameOk [] := ⟨rfl, fun _ hc => by cases hc⟩
 
 /-- the parsed node satisfies the printable-node hypotheses of `C11RoundTrip2` -/
 theorem PartOkFull_of_wf {sh : Shape} {dim : Nat} {name : Str} {p : Part}
-    (h : Part.wf sh dim p) (hx : Part.wfX NameOk name p) : PartOkFull sh dim name p := by
-  obtain ⟨a1, a2, a3, a4, a5, a6, a7, a8, a9⟩ := h
-  obtain ⟨b1, b2, b3, b4, b5⟩ := hx
+    (h : Part.wf sh dim p) (hx : Part.wfX NameOk name p) (b1 : p.chart = []) (a7 : p.noTopoEmpty)
+    (a9 : p.hasTopo = true → zeroBelow p.sizes = false) : PartOkFull sh dim name p := by
+  obtain ⟨a1, a2, a3, a4, a5, a6, a8⟩ := h
+  obtain ⟨b2, b3, b4, b5⟩ := hx
   refine ⟨b1, a1, a2, a3, a5, a6, ?_, b2, a4, b3, ?_, b5, a9⟩
   · intro hT
     rw [List.eq_replicate_iff]
@@ -1722,6 +2186,7 @@ theorem PartitionOk_of_wf {p : Partition} (h : p.wf) (hx : p.wfX NameOk) : Parti
 theorem parseMeshFile_decomp {text : Str} {sh : Shape} {dim : Nat} {n : Node}
     (h : parseMeshFile text = .ok sh dim n) :
     ∃ m iline rest sd wd, readRoot (splitLines text) 0 = .ok (m, iline, rest) ∧
+      rootType iline m = .ok (some (sh, sd, wd)) ∧
       supported sh sd wd = true ∧ parseBody sh sd.toNat m iline rest = .ok sh dim n := by
   unfold parseMeshFile at h
   split at h
@@ -1730,30 +2195,118 @@ theorem parseMeshFile_decomp {text : Str} {sh : Shape} {dim : Nat} {n : Node}
     split at h
     · cases h
     · cases h
-    · rename_i sh' sd wd _
+    · rename_i sh' sd wd hrt
       split at h
       · cases h
       · rename_i hsup
         have := (parseBody_ok_type h).1
         subst this
-        exact ⟨m, iline, rest, sd, wd, hroot, by simpa using hsup, h⟩
+        exact ⟨m, iline, rest, sd, wd, hroot, hrt, by simpa using hsup, h⟩
 
 end S2
 
-/-- **parser outputs are printable**: without a chart reference, an accepted file yields a node that satisfies
-    all side conditions of the round-trip theorems of `C11RoundTrip2` -/
-theorem parseMeshFile_printable (text : Str) (sh : Shape) (dim : Nat) (n : Node)
+/-! ### the linker's deduction list, seen from the text -/
+
+/-- the linker's deduction list of a `parseBody` run: the names of the `topology="parent"` mesh parts -/
+def deductOfBody (sh : Shape) (dim : Nat) (m : Markup) (iline : Nat) (rest : List Str) : List Str :=
+  match scanLoop meshClient rest iline [m.name]
+      { shape := sh, dim := dim, stack := [Frame.root], node := { mesh := none, parts := [], partitions := [] },
+        links := [], deduct := [], unmodelled := false } with
+  | .ok st => st.deduct
+  | .error _ => []
+
+/-- the names of the `topology="parent"` mesh parts of a mesh file (as `parseMeshFile` sees them) -/
+def deductNames (text : Str) : List Str :=
+  match readRoot (splitLines text) 0 with
+  | .ok (m, iline, rest) =>
+    match rootType iline m with
+    | .ok (some (sh, sd, _)) => deductOfBody sh sd.toNat m iline rest
+    | _ => []
+  | .error _ => []
+
+/-- the same for the second-generation parse with a fixed mesh type -/
+def deductNamesAs (sh : Shape) (dim : Nat) (text : Str) : List Str :=
+  match readRoot (splitLines text) 0 with
+  | .ok (m, iline, rest) => deductOfBody sh dim m iline rest
+  | .error _ => []
+
+/-- mesh parts whose topology was not deducted by the linker: no entity count of zero below a non-zero one (if
+    the part has a topology), empty index sets (if it has none) -/
+theorem parseBody_parts_nonded {sh sh' : Shape} {dim dim' : Nat} {m : Markup} {iline : Nat} {rest : List Str}
+    {n : Node} (h : parseBody sh dim m iline rest = .ok sh' dim' n) :
+    ∀ np ∈ n.parts, np.1 ∉ deductOfBody sh dim m iline rest →
+      (np.2.hasTopo = true → zeroBelow np.2.sizes = false) ∧ np.2.noTopoEmpty := by
+  obtain ⟨_, _, _, _, st, hscan, _, _, hz⟩ :=
+    S2.parseBody_node_ok (N := fun _ => True) trivial (fun _ _ _ _ _ _ _ => trivial) h
+  unfold deductOfBody
+  rw [hscan]
+  exact hz
+
+theorem parseMeshFile_parts_nonded {text : Str} {sh : Shape} {dim : Nat} {n : Node}
     (h : parseMeshFile text = .ok sh dim n) :
+    ∀ np ∈ n.parts, np.1 ∉ deductNames text →
+      (np.2.hasTopo = true → zeroBelow np.2.sizes = false) ∧ np.2.noTopoEmpty := by
+  obtain ⟨m, iline, rest, sd, wd, hroot, hrt, _, hbody⟩ := S2.parseMeshFile_decomp h
+  have := parseBody_parts_nonded hbody
+  unfold deductNames
+  rw [hroot]
+  simp only [hrt]
+  exact this
+
+/-- **no empty entity dimension below a non-empty one** for mesh parts with an own (`topology="full"`) topology.
+    For a `topology="parent"` part (`np.1 ∈ deductNames text`) the reader does not check this. -/
+theorem parseMeshFile_parts_no_zero_below {text : Str} {sh : Shape} {dim : Nat} {n : Node}
+    (h : parseMeshFile text = .ok sh dim n) :
+    ∀ np ∈ n.parts, np.1 ∉ deductNames text → np.2.hasTopo = true → zeroBelow np.2.sizes = false :=
+  fun np hnp hni => (parseMeshFile_parts_nonded h np hnp hni).1
+
+theorem reparse_parts_no_zero_below {text : Str} {sh sh' : Shape} {dim dim' : Nat} {n : Node}
+    (h : reparse sh dim text = .ok sh' dim' n) :
+    ∀ np ∈ n.parts, np.1 ∉ deductNamesAs sh dim text → np.2.hasTopo = true → zeroBelow np.2.sizes = false := by
+  unfold reparse at h
+  split at h
+  · cases h
+  · rename_i m iline rest hroot
+    split at h
+    · cases h
+    · have := parseBody_parts_nonded h
+      unfold deductNamesAs
+      rw [hroot]
+      exact fun np hnp hni => (this np hnp hni).1
+
+/-- a chart-linked mesh part refers to a chart of the atlas -/
+theorem parseMeshFile_chart_links {text : Str} {sh : Shape} {dim : Nat} {n : Node}
+    (h : parseMeshFile text = .ok sh dim n) :
+    ∀ np ∈ n.parts, np.2.chart = [] ∨ (mapFind strLt np.2.chart n.charts).isSome = true :=
+  (parseMeshFile_node_ok' h).1.partsChart
+
+/-- without charts no mesh part has a chart link -/
+theorem parseMeshFile_no_charts {text : Str} {sh : Shape} {dim : Nat} {n : Node}
+    (h : parseMeshFile text = .ok sh dim n) (hc : n.charts = []) : ∀ np ∈ n.parts, np.2.chart = [] := by
+  intro np hnp
+  rcases parseMeshFile_chart_links h np hnp with h1 | h1
+  · exact h1
+  · rw [hc] at h1
+    simp [mapFind] at h1
+
+/-- **parser outputs are printable**: an accepted file without charts yields a node that satisfies all side
+    conditions of the round-trip theorems of `C11RoundTrip2`, provided the parts with a topology have no entity
+    count of zero below a non-zero one and the parts without have empty index sets (both hold for every part that
+    was not declared `topology="parent"`: `parseMeshFile_parts_nonded`) -/
+theorem parseMeshFile_printable (text : Str) (sh : Shape) (dim : Nat) (n : Node)
+    (h : parseMeshFile text = .ok sh dim n) (hc : n.charts = [])
+    (hzb : ∀ np ∈ n.parts, np.2.hasTopo = true → zeroBelow np.2.sizes = false)
+    (hnt : ∀ np ∈ n.parts, np.2.noTopoEmpty) :
     supported sh (dim : Int) (dim : Int) = true ∧
     (∀ m, n.mesh = some m → m.wf sh dim = true ∧ (∀ s ∈ m.sizes, s < 2 ^ 64) ∧ zeroBelow m.sizes = false) ∧
     (∀ np ∈ n.parts, PartOkFull sh dim np.1 np.2) ∧
     n.parts.Pairwise (fun a b => strLt a.1 b.1 = true) ∧
     (∀ p ∈ n.partitions, PartitionOk p) ∧
     mapOutOfRange n = false := by
-  obtain ⟨m, iline, rest, sd, wd, hroot, hsup, hbody⟩ := S2.parseMeshFile_decomp h
+  obtain ⟨m, iline, rest, sd, wd, hroot, _, hsup, hbody⟩ := S2.parseMeshFile_decomp h
   have hN : S2.LinesN NameOk rest :=
     (S2.LinesN_splitLines text).sub (S2.readRoot_rest_sub _ _ _ _ _ hroot)
-  obtain ⟨_, hdim, hn, hmap⟩ := S2.parseBody_node_ok S2.NameOk_nil hN hbody
+  obtain ⟨_, hdim, hn, hmap, _⟩ := S2.parseBody_node_ok S2.NameOk_nil hN hbody
   refine ⟨?_, ?_, ?_, hn.partsSorted, ?_, hmap⟩
   · subst hdim
     have hsd : ((sd.toNat : Nat) : Int) = sd ∧ wd = sd := by
@@ -1767,37 +2320,69 @@ theorem parseMeshFile_printable (text : Str) (sh : Shape) (dim : Nat) (n : Node)
     exact ⟨parseMeshFile_mesh_wf text sh dim n msh h hm, hn.mesh64 msh hm, hn.meshZB msh hm⟩
   · intro np hnp
     subst hdim
-    exact S2.PartOkFull_of_wf (hn.parts np hnp).1 (hn.parts np hnp).2
+    exact S2.PartOkFull_of_wf (hn.parts np hnp).1 (hn.parts np hnp).2 (parseMeshFile_no_charts h hc np hnp)
+      (hnt np hnp) (hzb np hnp)
   · intro p hp
     exact S2.PartitionOk_of_wf (hn.partitions p hp).1 (hn.partitions p hp).2
 
-/-- **parse ∘ print ∘ parse = parse**: re-parsing the written form of an accepted file (with a root mesh)
-    gives the same node back -/
+/-- **parse ∘ print ∘ parse = parse**: re-parsing the written form of an accepted file (with a root mesh, without
+    charts) gives the same node back.  `hzb` / `hnt` hold for all parts that were not declared `topology="parent"`
+    (`parseMeshFile_parts_nonded`); a deducted part is written as `topology="full"`, for which the reader demands
+    `hzb`. -/
 theorem parse_print_parse (text : Str) (sh : Shape) (dim : Nat) (n : Node)
-    (h : parseMeshFile text = .ok sh dim n) (hm : n.mesh.isSome) :
+    (h : parseMeshFile text = .ok sh dim n) (hm : n.mesh.isSome) (hc : n.charts = [])
+    (hzb : ∀ np ∈ n.parts, np.2.hasTopo = true → zeroBelow np.2.sizes = false)
+    (hnt : ∀ np ∈ n.parts, np.2.noTopoEmpty) :
     parseMeshFile (printMeshFile sh dim n) = .ok sh dim n := by
-  obtain ⟨hs, hmesh, hp, hsorted, hpt, hmap⟩ := parseMeshFile_printable text sh dim n h
-  obtain ⟨mesh, parts, partitions⟩ := n
+  obtain ⟨hs, hmesh, hp, hsorted, hpt, hmap⟩ := parseMeshFile_printable text sh dim n h hc hzb hnt
+  obtain ⟨mesh, parts, partitions, charts⟩ := n
+  simp only at hc
+  subst hc
   cases mesh with
   | none => simp at hm
   | some msh =>
-    obtain ⟨hwf, h64, hzb⟩ := hmesh msh rfl
-    exact parse_print_node_full sh dim msh parts partitions hs hwf h64 hzb hp hsorted hpt hmap
+    obtain ⟨hwf, h64, hzb'⟩ := hmesh msh rfl
+    exact parse_print_node_full sh dim msh parts partitions hs hwf h64 hzb' hp hsorted hpt hmap
+
+/-- closed form for files without `topology="parent"` parts and without charts: no further hypotheses -/
+theorem parse_print_parse_noparent (text : Str) (sh : Shape) (dim : Nat) (n : Node)
+    (h : parseMeshFile text = .ok sh dim n) (hm : n.mesh.isSome) (hc : n.charts = [])
+    (hd : deductNames text = []) :
+    parseMeshFile (printMeshFile sh dim n) = .ok sh dim n :=
+  parse_print_parse text sh dim n h hm hc
+    (fun np hnp => (parseMeshFile_parts_nonded h np hnp (by rw [hd]; simp)).1)
+    (fun np hnp => (parseMeshFile_parts_nonded h np hnp (by rw [hd]; simp)).2)
 
 /-- the same for an accepted file without a root mesh: the written file carries no mesh type, so the first parse
-    reports `notype` and the second-generation parse with the known type gives the node back -/
+    reports `notype` and the second-generation parse with the known type gives the node back.  Without a root mesh
+    the linker cannot deduct a topology, so only the `charts = []` restriction is needed. -/
 theorem parse_print_reparse (text : Str) (sh : Shape) (dim : Nat) (n : Node)
-    (h : parseMeshFile text = .ok sh dim n) (hm : n.mesh = none) :
+    (h : parseMeshFile text = .ok sh dim n) (hm : n.mesh = none) (hc : n.charts = []) :
     parseMeshFile (printMeshFile sh dim n) = .notype ∧
     reparse sh dim (printMeshFile sh dim n) = .ok sh dim n := by
-  obtain ⟨hs, _, hp, hsorted, hpt, _⟩ := parseMeshFile_printable text sh dim n h
+  have hded : deductNames text = [] := by
+    obtain ⟨m, iline, rest, sd, wd, hroot, hrt, _, hbody⟩ := S2.parseMeshFile_decomp h
+    obtain ⟨_, _, st, n1, hscan, _, hl, _, hd⟩ := parseBody_ok_run hbody
+    unfold deductNames deductOfBody
+    rw [hroot]
+    simp only [hrt, hscan]
+    cases hq : st.deduct with
+    | nil => rfl
+    | cons a l =>
+      rw [hq] at hd
+      have hm1 : n1.mesh = none := by rw [← (resolveDeduct_fields _ _ _ hd).1]; exact hm
+      simp [resolveDeduct, hm1] at hd
+  have hnd := parseMeshFile_parts_nonded h
+  rw [hded] at hnd
+  obtain ⟨hs, _, hp, hsorted, hpt, _⟩ := parseMeshFile_printable text sh dim n h hc
+    (fun np hnp => (hnd np hnp (by simp)).1) (fun np hnp => (hnd np hnp (by simp)).2)
   have hdim : dim + 1 < 2 ^ 64 := by
     unfold supported at hs
     simp only [Bool.and_eq_true, Bool.or_eq_true, beq_iff_eq] at hs
     omega
-  obtain ⟨mesh, parts, partitions⟩ := n
-  simp only at hm
-  subst hm
+  obtain ⟨mesh, parts, partitions, charts⟩ := n
+  simp only at hm hc
+  subst hm hc
   exact reparse_print_nomesh sh dim parts partitions hdim hp hsorted hpt
 
 end FeatModel.C11
